@@ -12,7 +12,7 @@ RULE = (
     "file<->directory replacements at depth <= 4 / exec-bit flips, or an unrelated tree), target index given as explicit file "
     "entries (with explicit directory entries, incl. empty ones) or as one unloaded directory object at the root or at a nested "
     "key, link type in {default, copy, hardlink, symlink}, delete on/off, update_meta on/off, state on/off, some cache objects "
-    "removed (unavailable sources).  The workspace index is md5(build(ws)).  non-trivial = prior != target; distinct = hash of "
+    "removed (unavailable sources).  Histories on ONE target index object: checkout, then a directory entry is added to it (or its missing directory object is fetched), checkout again.  The workspace index is md5(build(ws)).  non-trivial = prior != target; distinct = hash of "
     "(prior, target, configuration)"
 )
 ASSUMPTIONS = [
@@ -23,7 +23,7 @@ ASSUMPTIONS = [
 ]
 MONITORS = "independent walk of the workspace (bytes, directories, exec bits) after apply; second compare's action lists; onerror recorder; audit-hook log of removals"
 REQUIRED_COUNTERS = [
-    "two_cache_targets", "implicit_parent_targets", "unavailable_directory_object_cases", "applies", "kind_swap_cases", "nested_dir_deletions", "lazy_targets", "explicit_targets", "delete_off_cases",
+    "same_index_histories", "two_cache_targets", "implicit_parent_targets", "unavailable_directory_object_cases", "applies", "kind_swap_cases", "nested_dir_deletions", "lazy_targets", "explicit_targets", "delete_off_cases",
     "unavailable_source_cases", "second_compares", "exec_entries_checked", "link/hardlink", "link/symlink", "link/copy",
 ]
 
@@ -298,4 +298,86 @@ def run_shard(ctx):
             env.reset_staging()
             ctx.drop(d)
 
-        ctx.guard(case, one)
+        def history(case=case, rng=rng):
+            """ONE target index object used for two checkouts: a directory entry is added to it after the first checkout, or its
+            directory object was missing at first and has been fetched since"""
+            d = ctx.fresh("h")
+            ws = os.path.join(d, "ws")
+            os.makedirs(ws)
+            pool = [gen.small_content(rng) for _ in range(4)] + [b""]
+            top1 = gen.name(rng, odd=0.2)
+            top2 = top1 + "-second"
+            T1 = {(top1, *k): v for k, v in gen.tree(rng, depth=rng.randrange(0, 3), fanout=3, pool_=pool, dup=0.5, odd=0.25, min_files=1, empty_dirs=False)[0].items()}
+            T2 = {(top2, *k): v for k, v in gen.tree(rng, depth=rng.randrange(0, 3), fanout=3, pool_=pool, dup=0.5, odd=0.25, min_files=1, empty_dirs=False)[0].items()}
+            link = rng.choice(["copy", "copy", "hardlink", "symlink"])
+            um = rng.random() < 0.8
+            variant = rng.choice(["entry-added-later", "object-fetched-later"])
+            cache = env.local_odb(os.path.join(d, "cache"), type=[link])
+            indexlab.save_tree_to_cache(ctx, cache, {**T1, **T2}, d)
+            # (index save stores a directory object per directory: the later one is taken away again until it is "fetched")
+            indexlab.put_dir_object(cache, T1, (top1,))
+            o2 = indexlab.dir_oid(T2, (top2,))[0]
+            p2 = cache.oid_to_path(o2)
+            if os.path.exists(p2):
+                os.chmod(p2, 0o644)
+                os.unlink(p2)
+            idx = indexlab.lazy_index(T1, (top1,), cache_odb=cache)
+            if variant == "object-fetched-later":
+                indexlab.lazy_index(T2, (top2,), index=idx)
+            cfg = {"history": variant, "link": link, "update_meta": um, "first": sorted("/".join(k) for k in T1), "second": sorted("/".join(k) for k in T2)}
+            res.evaluated()
+            res.count("applies")
+            res.count("same_index_histories")
+            res.nontrivial("history", variant, sorted(T1.items()), sorted(T2.items()), link, um)
+            res.sample(cfg)
+            errs1 = []
+            try:
+                apply(compare(indexlab.workspace_index(ws), idx, delete=True), ws, fs, update_meta=um, storage="cache",
+                      onerror=lambda s_, dst, e: errs1.append(dst), links=[link])
+            except Exception:  # noqa: BLE001  (loud: the second directory cannot be loaded yet)
+                if variant != "object-fetched-later":
+                    raise
+                errs1.append("raised")
+            got1 = walk_files(ws)
+            if variant == "entry-added-later" and (got1 != T1 or errs1):
+                res.violation("target-file-missing/first-checkout-of-history", f"first checkout: {len(got1)} of {len(T1)} files, errors {errs1[:2]}", case=case, detail=cfg)
+                ctx.drop(d)
+                return
+            if variant == "object-fetched-later" and not errs1:
+                res.violation("unavailable-directory-not-reported", f"directory {top2} cannot be loaded and nothing was reported", case=case, detail=cfg)
+            # the second directory becomes available / known
+            indexlab.put_dir_object(cache, T2, (top2,))
+            if variant == "entry-added-later":
+                indexlab.lazy_index(T2, (top2,), index=idx)
+            errs2 = []
+            exc2 = None
+            try:
+                apply(compare(indexlab.workspace_index(ws), idx, delete=True), ws, fs, update_meta=um, storage="cache",
+                      onerror=lambda s_, dst, e: errs2.append((dst, type(e).__name__)), links=[link])
+            except Exception as e:  # noqa: BLE001
+                exc2 = e
+            want = {**T1, **T2}
+            got2 = walk_files(ws)
+            if exc2 is not None:
+                raise exc2
+            if got2 != want:
+                missing = sorted(k for k in want if k not in got2)
+                kind = "target-file-missing" if missing else "target-file-wrong-bytes"
+                res.violation(f"{kind}/second-checkout-with-the-same-index/{variant}",
+                              f"after the second checkout through the same index object {len(missing)} target files are missing (errors reported: {errs2[:2]})",
+                              case=case, detail=cfg)
+            elif errs2:
+                res.violation("spurious-error-callback/second-checkout-with-the-same-index", f"{errs2[:2]}", case=case, detail=cfg)
+            else:
+                res.count("second_compares")
+                d3 = compare(indexlab.workspace_index(ws), idx, delete=True)
+                left = {n: len(getattr(d3, n)) for n in ("files_delete", "dirs_delete", "files_create", "dirs_create") if getattr(d3, n)}
+                if left:
+                    res.violation("second-compare-not-empty/" + "+".join(sorted(left)) + "/same-index-history", f"third compare still wants {left}", case=case, detail=cfg)
+            env.reset_staging()
+            ctx.drop(d)
+
+        if case % 8 == 5:
+            ctx.guard(case, history)
+        else:
+            ctx.guard(case, one)
